@@ -2,6 +2,7 @@
 //! `verif-hooks` wrapper of the private `try_parse_grpc_timeout`) and shortest-deadline
 //! enforcement (real `Server::timeout` + `Endpoint::timeout` stacks over a duplex pipe in
 //! paused tokio time).
+mod stacks;
 use bytes::{Buf, BufMut};
 use http::{HeaderMap, HeaderName, HeaderValue};
 use serde_json::{json, Value};
@@ -324,15 +325,19 @@ async fn run_call(src: Src, ccfg: Option<Duration>, scfg: Option<Duration>, lat:
         Ok(Err(s)) => (s.code() as i32 as u32, s.message().to_string(), el),
     }
 }
+/// the oracle's own reading of "the most precise unit that fits 8 digits" (not tonic's code)
+fn spec_fmt(ns: u128) -> Option<Vec<u8>> {
+    UNITS.iter().find(|(_, per)| ns / per <= MAX_VALUE).map(|(u, per)| {
+        let mut v = (ns / per).to_string().into_bytes();
+        v.push(*u);
+        v
+    })
+}
 fn sent_header(src: &Src) -> Option<Vec<u8>> {
     match src {
         Src::None => None,
         Src::Raw(h) => Some(h.as_bytes().to_vec()),
-        Src::Set(d) => {
-            let mut r = Request::new(());
-            r.set_timeout(*d);
-            r.metadata().get("grpc-timeout").map(|v| v.as_bytes().to_vec())
-        }
+        Src::Set(d) => spec_fmt(d.as_nanos()),
     }
 }
 fn ceil_ms(ns: u128) -> u128 {
@@ -413,6 +418,164 @@ fn case_run(out: &mut Out, src: Src, ccfg: Option<Duration>, scfg: Option<Durati
     });
 }
 
+// ------------------------------------------------------------------ kinds: srv_only / cli_only / *.stream / *.late_body
+use stacks::{ClientKind, ServerKind, Shape};
+fn stacks_src(s: &Src) -> stacks::Src {
+    match s {
+        Src::None => stacks::Src::None,
+        Src::Set(d) => stacks::Src::Set(*d),
+        Src::Raw(h) => stacks::Src::Raw(h.clone()),
+    }
+}
+/// One call with the two enforcement points separated (or both real, for streams).
+/// `flag_overrun`: a call that is not cut off although its deadline elapsed before its end is an
+/// oracle failure (F-C09b for streams, F-C09c for a unary response whose head is in time and
+/// whose message is late).
+#[allow(clippy::too_many_arguments)]
+fn case_call(out: &mut Out, base: &str, src: Src, client: ClientKind, server: ServerKind, head_ms: u64, n: u64, gap_ms: u64, streaming: bool, flag_overrun: bool) {
+    let shape = Shape { streaming, head: Duration::from_millis(head_ms), n, gap: Duration::from_millis(gap_ms) };
+    let kind = if streaming {
+        format!("{}.stream", base)
+    } else if n * gap_ms > 0 {
+        format!("{}.late_body", base)
+    } else {
+        base.to_string()
+    };
+    let (s2, c2, sv2) = (stacks_src(&src), client, server);
+    let res = catch(std::panic::AssertUnwindSafe(move || stacks::run_in_paused_runtime(s2, c2, sv2, shape)));
+    // the property, read directly
+    let caller = sent_header(&src).and_then(|v| spec_denote(&v)).map(|x| x.0);
+    let mut limits: Vec<u128> = vec![];
+    if let ServerKind::Tonic(scfg) = server {
+        limits.extend([caller, scfg.map(|d| d.as_nanos())].into_iter().flatten().min());
+    }
+    if let ClientKind::Channel(ccfg) = client {
+        limits.extend([caller, ccfg.map(|d| d.as_nanos())].into_iter().flatten().min());
+    }
+    let eff = limits.into_iter().min();
+    let h_ns = head_ms as u128 * MS;
+    let end_ms = (head_ms + n * gap_ms) as u128;
+    let want_msgs = if streaming { n } else { 1 };
+    let (obs, oracle) = match &res {
+        Err(p) => (Tr::L(vec![Tr::n(99u8)]), Some(format!("panic: {}", p))),
+        Ok(o) => {
+            let cut = o.code == 1 && o.msg == "Timeout expired";
+            let ok = o.code == 0;
+            let head_ok = o.head_code == 0;
+            let in_window = |t: u128, e: u128| t >= e && t < e + MS;
+            let why = if !ok && !cut {
+                Some(format!("unexpected outcome code {} {:?}", o.code, o.msg))
+            } else if !head_ok && !cut {
+                Some(format!("unexpected head outcome code {}", o.head_code))
+            } else {
+                match eff {
+                    None if !ok => Some("no deadline is enforced anywhere but the call was cut off".to_string()),
+                    None if o.end_ns != end_ms * MS || o.msgs != want_msgs => Some(format!("no deadline: got {} messages, end at {} ns", o.msgs, o.end_ns)),
+                    None => None,
+                    Some(e) => {
+                        let td = ceil_ms(e);
+                        let hm = head_ms as u128;
+                        // 1. the race for the head: decided whenever the ticks differ
+                        if hm > td && head_ok {
+                            Some(format!("deadline {} ns elapsed before the response head ({} ns) but the call was not cut off", e, h_ns))
+                        } else if hm > td && !in_window(o.end_ns, e) {
+                            Some(format!("cut off at {} ns, deadline is {} ns", o.end_ns, e))
+                        } else if hm > td && o.probe.head_done.is_some() {
+                            Some("the call was cut off but the handler ran to its end".to_string())
+                        } else if hm > td && o.probe.head_dropped.map(|t| !in_window(t, e)).unwrap_or(false) {
+                            Some(format!("handler cancelled at {:?} ns, deadline is {} ns", o.probe.head_dropped, e))
+                        } else if hm < td && !head_ok {
+                            Some(format!("response head at {} ns is before the deadline {} ns but the call failed", h_ns, e))
+                        } else if streaming && head_ok && o.head_ns != h_ns {
+                            Some(format!("response head arrived at {} ns, produced at {} ns", o.head_ns, h_ns))
+                        } else if !head_ok && !in_window(o.end_ns, e) {
+                            Some(format!("cut off at {} ns, deadline is {} ns", o.end_ns, e))
+                        // 2. after an in-time head
+                        } else if head_ok && end_ms < td && !(ok && o.msgs == want_msgs && o.end_ns == end_ms * MS) {
+                            Some(format!("call ends at {} ms, before the deadline {} ns, but gave {} messages, code {}, end {} ns", end_ms, e, o.msgs, o.code, o.end_ns))
+                        } else if head_ok && end_ms > td && ok {
+                            if flag_overrun {
+                                Some(format!(
+                                    "{}: head in time ({} ms), deadline {} ns, but the call was not cut off: {} messages, OK at {} ns",
+                                    if streaming { "F-C09b" } else { "F-C09c" }, head_ms, e, o.msgs, o.end_ns))
+                            } else {
+                                None
+                            }
+                        } else if head_ok && cut && !in_window(o.end_ns, e) {
+                            Some(format!("cut off at {} ns, deadline is {} ns", o.end_ns, e))
+                        } else {
+                            None
+                        }
+                    }
+                }
+            };
+            if let Some(e) = eff {
+                if head_ok && end_ms > ceil_ms(e) && ok {
+                    out.hist("call.overrun", if streaming { "F-C09b stream not cut after in-time head" } else { "F-C09c late unary body not cut" });
+                }
+            }
+            let st = |c: u32, m: &str| Tr::L(vec![Tr::n(c), Tr::s(if c == 0 { "" } else { m })]);
+            let fate = match (o.probe.head_done, o.probe.head_dropped) {
+                (Some(t), _) => Tr::L(vec![Tr::n(1u8), Tr::N(t)]),
+                (None, Some(t)) => Tr::L(vec![Tr::n(2u8), Tr::N(t)]),
+                _ => Tr::L(vec![Tr::n(0u8)]),
+            };
+            (
+                Tr::L(vec![
+                    st(o.head_code, &o.msg),
+                    Tr::N(o.head_ns),
+                    Tr::n(o.msgs),
+                    st(o.code, &o.msg),
+                    Tr::N(o.end_ns),
+                    fate,
+                    Tr::n(if head_ok { o.probe.produced } else { 0 }),
+                ]),
+                why,
+            )
+        }
+    };
+    let opt = |d: &Option<Duration>| coq_opt(d, |d| d.as_nanos().to_string());
+    let src_coq = match &src {
+        Src::None => "NoDeadline".to_string(),
+        Src::Set(d) => format!("(SetTimeout {})", d.as_nanos()),
+        Src::Raw(h) => format!("(RawHeader {})", coq_bytes(h.as_bytes())),
+    };
+    let ck = match client {
+        ClientKind::Channel(c) => format!("(CChannel {})", opt(&c)),
+        ClientKind::Raw => "CRaw".to_string(),
+    };
+    let sk = match server {
+        ServerKind::Tonic(c) => format!("(STonic {})", opt(&c)),
+        ServerKind::Stub => "SStub".to_string(),
+    };
+    out.hist(
+        &format!("{}.head_vs_deadline", kind),
+        match eff {
+            None => "no deadline",
+            Some(e) if (head_ms as u128) < ceil_ms(e) => "earlier tick",
+            Some(e) if (head_ms as u128) == ceil_ms(e) => "same tick",
+            _ => "later tick",
+        },
+    );
+    let dj = |d: &Option<Duration>| d.map(dur_json);
+    out.push(Case {
+        kind,
+        input: json!({
+            "base": base,
+            "src": match &src { Src::None => json!(null), Src::Set(d) => json!({"set": dur_json(*d)}), Src::Raw(h) => json!({"raw": h}) },
+            "client": match client { ClientKind::Channel(c) => json!({"channel": dj(&c)}), ClientKind::Raw => json!("raw") },
+            "server": match server { ServerKind::Tonic(c) => json!({"tonic": dj(&c)}), ServerKind::Stub => json!("stub") },
+            "head_ms": head_ms, "n": n, "gap_ms": gap_ms, "streaming": streaming}),
+        model: format!(
+            "obs_call {} {} {} (mkShape {} {} {} {})",
+            src_coq, ck, sk, coq_bool(streaming), head_ms, n, gap_ms
+        ),
+        impl_obs: obs,
+        oracle,
+        nontrivial: eff.is_some(),
+    });
+}
+
 // ------------------------------------------------------------------ generators
 fn boundary_durations() -> Vec<u128> {
     let mut v: Vec<u128> = vec![0, 1, 2, 9, 10, 11];
@@ -463,6 +626,9 @@ fn structured_parse_cases(out: &mut Out, r: &mut Rng, thorough: bool) {
                     for p in PREFIXES {
                         for i in INFIXES {
                             for s in SUFFIXES {
+                                if !i.is_empty() && !s.is_empty() {
+                                    continue;
+                                }
                                 let v = [*p, &digits(pat, n, r), *i, *u, *s].concat();
                                 case_parse(out, &one(&v), "parse.structured");
                             }
@@ -576,6 +742,26 @@ fn corpus(out: &mut Out) {
     case_run(out, Src::None, None, Some(ms(0)), 0, true);
     case_run(out, Src::None, None, Some(Duration::from_micros(1200)), 2, true);
     case_run(out, Src::None, None, Some(Duration::from_micros(1200)), 3, true);
+
+    // known findings F-C09b / F-C09c: head in time, the rest beyond the deadline, nobody cuts it
+    let flag = !std::env::args().any(|a| a == "--no-flag-overrun");
+    use ClientKind::{Channel, Raw};
+    use ServerKind::{Stub, Tonic};
+    case_call(out, "corpus.full", Src::Set(ms(5)), Channel(Some(ms(5))), Tonic(Some(ms(5))), 2, 100, 1000, true, flag);
+    case_call(out, "corpus.srv_only", Src::None, Raw, Tonic(Some(ms(5))), 2, 100, 1000, true, flag);
+    case_call(out, "corpus.srv_only", Src::Raw("5m".into()), Raw, Tonic(None), 2, 4, 3, true, flag);
+    case_call(out, "corpus.cli_only", Src::None, Channel(Some(ms(5))), Stub, 2, 4, 3, true, flag);
+    case_call(out, "corpus.cli_only", Src::None, Channel(Some(ms(5))), Stub, 2, 1, 10, false, flag);
+    case_call(out, "corpus.cli_only", Src::Set(ms(5)), Channel(None), Stub, 2, 1, 10, false, flag);
+    // ... whereas a late head is cut on either side alone, and the handler is dropped there
+    case_call(out, "corpus.srv_only", Src::Raw("5m".into()), Raw, Tonic(None), 6, 4, 3, true, flag);
+    case_call(out, "corpus.cli_only", Src::None, Channel(Some(ms(5))), Stub, 6, 4, 3, true, flag);
+    case_call(out, "corpus.srv_only", Src::Raw("5m".into()), Raw, Tonic(None), 6, 1, 0, false, flag);
+    case_call(out, "corpus.srv_only", Src::Raw("5m".into()), Raw, Tonic(None), 4, 1, 0, false, flag);
+    case_call(out, "corpus.srv_only", Src::Raw("+5m".into()), Raw, Tonic(None), 10, 1, 0, false, flag);
+    case_call(out, "corpus.cli_only", Src::Set(ms(5)), Channel(None), Stub, 6, 1, 0, false, flag);
+    case_call(out, "corpus.cli_only", Src::Set(ms(5)), Channel(None), Stub, 4, 1, 0, false, flag);
+    case_call(out, "corpus.none", Src::Raw("5m".into()), Raw, Stub, 10, 1, 0, false, flag);
 }
 
 fn run_grid(out: &mut Out, r: &mut Rng, thorough: bool) {
@@ -639,6 +825,105 @@ fn run_grid(out: &mut Out, r: &mut Rng, thorough: bool) {
     }
 }
 
+fn call_grid(out: &mut Out, r: &mut Rng, thorough: bool, flag: bool) {
+    use ClientKind::{Channel, Raw};
+    use ServerKind::{Stub, Tonic};
+    let bases: &[u64] = if thorough { &[0, 1, 2, 3, 10, 1000, 60_000] } else { &[0, 1, 3, 1000] };
+    let offs: &[i64] = if thorough { &[0, 1, -1, 500_000] } else { &[0, 1, -1] };
+    for &b in bases {
+        for &off in offs {
+            let lim_ns = (b as i128 * MS as i128 + off as i128).max(0) as u128;
+            let lim = dur_ns(lim_ns);
+            let longer = dur_ns(lim_ns + 2 * MS);
+            let mut lats = vec![b.saturating_sub(1), b, b + 1, b + 2, b + 3, 0];
+            lats.sort();
+            lats.dedup();
+            // (a) only the server can cut the call: raw client, real Server
+            let srv: Vec<(Src, Option<Duration>)> = vec![
+                (Src::Set(lim), None),
+                (Src::None, Some(lim)),
+                (Src::Set(lim), Some(longer)),
+                (Src::Set(longer), Some(lim)),
+            ];
+            // (b) only the client can cut the call: real Channel, silent stub server
+            let cli = srv.clone();
+            for &l in &lats {
+                for (s, c) in &srv {
+                    case_call(out, "srv_only", s.clone(), Raw, Tonic(*c), l, 1, 0, false, flag);
+                }
+                for (s, c) in &cli {
+                    case_call(out, "cli_only", s.clone(), Channel(*c), Stub, l, 1, 0, false, flag);
+                }
+            }
+            // unary response from a peer that sends its head early and the message late
+            for head in [0, b.saturating_sub(1), b + 1] {
+                for gap in [1, b + 2] {
+                    case_call(out, "cli_only", Src::Set(lim), Channel(None), Stub, head, 1, gap, false, flag);
+                    case_call(out, "cli_only", Src::None, Channel(Some(lim)), Stub, head, 1, gap, false, flag);
+                }
+            }
+            // server streams: head in time / late, messages before / beyond the deadline
+            let mut heads = vec![0, b.saturating_sub(1), b, b + 1];
+            heads.sort();
+            heads.dedup();
+            for &head in &heads {
+                for (n, gap) in [(0u64, 0u64), (3, 0), (2, 1), (4, b + 1)] {
+                    case_call(out, "srv_only", Src::Set(lim), Raw, Tonic(None), head, n, gap, true, flag);
+                    case_call(out, "srv_only", Src::None, Raw, Tonic(Some(lim)), head, n, gap, true, flag);
+                    case_call(out, "cli_only", Src::Set(lim), Channel(None), Stub, head, n, gap, true, flag);
+                    case_call(out, "cli_only", Src::None, Channel(Some(lim)), Stub, head, n, gap, true, flag);
+                    case_call(out, "full", Src::Set(lim), Channel(None), Tonic(None), head, n, gap, true, flag);
+                    case_call(out, "full", Src::Set(longer), Channel(Some(lim)), Tonic(Some(longer)), head, n, gap, true, flag);
+                    case_call(out, "full", Src::None, Channel(Some(longer)), Tonic(Some(lim)), head, n, gap, true, flag);
+                }
+            }
+        }
+    }
+    // raw header values against the server alone: the unit letter matters, malformed = no deadline
+    let raws = ["5m", "5u", "5n", "5S", "1M", "05m", "00000005m", "+5m", "-5m", " 5m", "5x", "5", "m", "5M", "000000005m", "5 m", "5mm"];
+    for h in raws {
+        for l in [0u64, 4, 5, 6, 5001, 300_001] {
+            case_call(out, "srv_only", Src::Raw(h.to_string()), Raw, Tonic(None), l, 1, 0, false, flag);
+        }
+        // ... and the stub ignores it whatever it says; a raw client enforces nothing
+        case_call(out, "none", Src::Raw(h.to_string()), Raw, Stub, 7, 1, 0, false, flag);
+    }
+    let n = if thorough { 1500 } else { 200 };
+    for _ in 0..n {
+        let pick = |r: &mut Rng| -> Option<Duration> {
+            match r.below(4) {
+                0 => None,
+                1 => Some(Duration::from_millis(r.range(0, 12))),
+                2 => Some(Duration::from_micros(r.range(0, 12_000))),
+                _ => Some(Duration::from_nanos(r.range(0, 12_000_000))),
+            }
+        };
+        let src = match r.below(3) {
+            0 => Src::None,
+            1 => Src::Set(pick(r).unwrap_or(Duration::from_millis(7))),
+            _ => Src::Raw(format!("{}{}", r.range(0, 12_000), ["m", "u", "n", "S", "x", "m"][r.below(6) as usize])),
+        };
+        let client = if r.chance(1, 2) { Channel(pick(r)) } else { Raw };
+        let server = if r.chance(1, 2) { Tonic(pick(r)) } else { Stub };
+        let streaming = r.chance(1, 2);
+        let head = r.range(0, 14);
+        let (n, gap) = if streaming {
+            (r.range(0, 4), r.range(0, 6))
+        } else if matches!(server, Stub) && r.chance(1, 3) {
+            (1, r.range(1, 8))
+        } else {
+            (1, 0)
+        };
+        let base = match (client, server) {
+            (Raw, Tonic(_)) => "srv_only",
+            (Channel(_), Stub) => "cli_only",
+            (Channel(_), Tonic(_)) => "full",
+            (Raw, Stub) => "none",
+        };
+        case_call(out, base, src, client, server, head, n, gap, streaming, flag);
+    }
+}
+
 fn replay(out: &mut Out, file: &str) {
     let v: Value = serde_json::from_str(&std::fs::read_to_string(file).unwrap()).unwrap();
     let kind = v["kind"].as_str().unwrap_or("");
@@ -649,6 +934,29 @@ fn replay(out: &mut Out, file: &str) {
             .map(|a| a.iter().map(|e| (e[0].as_str().unwrap().to_string(), e[1].as_str().unwrap().to_string())).collect())
             .unwrap_or_default();
         case_fmt(out, &md, dur_from_json(&inp["d"]), false);
+    } else if !inp["head_ms"].is_null() {
+        let src = if inp["src"].is_null() {
+            Src::None
+        } else if !inp["src"]["raw"].is_null() {
+            Src::Raw(inp["src"]["raw"].as_str().unwrap().to_string())
+        } else {
+            Src::Set(dur_from_json(&inp["src"]["set"]))
+        };
+        let o = |x: &Value| if x.is_null() { None } else { Some(dur_from_json(x)) };
+        let client = if inp["client"].is_string() { ClientKind::Raw } else { ClientKind::Channel(o(&inp["client"]["channel"])) };
+        let server = if inp["server"].is_string() { ServerKind::Stub } else { ServerKind::Tonic(o(&inp["server"]["tonic"])) };
+        case_call(
+            out,
+            inp["base"].as_str().unwrap_or("full"),
+            src,
+            client,
+            server,
+            inp["head_ms"].as_u64().unwrap(),
+            inp["n"].as_u64().unwrap(),
+            inp["gap_ms"].as_u64().unwrap(),
+            inp["streaming"].as_bool().unwrap(),
+            !std::env::args().any(|a| a == "--no-flag-overrun"),
+        );
     } else if kind.ends_with("run") {
         let src = if inp["src"].is_null() {
             Src::None
@@ -670,7 +978,7 @@ fn replay(out: &mut Out, file: &str) {
     }
 }
 
-const RULE: &str = "fmt: Request::set_timeout(d) for d at 10^k-1, 10^k, 10^k+1 (ns and one unit either side) in every unit, the switch-over points 99999999 x unit, the largest writable duration, beyond it, Duration::MAX, and log-uniform random d; non-trivial = d below 100000000 h. parse: the hook parser on unit (6 valid, 12 invalid) x digit count 0..9 x digit pattern x sign/space prefix x space infix x trailing junk, plus arbitrary legal header bytes incl. obs-text, repeated and absent headers; non-trivial = a non-empty grpc-timeout value. run: real client and server stacks over tokio::io::duplex in paused time, (caller timeout | raw header, Endpoint::timeout, Server::timeout, handler latency) on a grid around every boundary incl. sub-millisecond limits; non-trivial = some deadline in force. Distinct = distinct (kind, model expression).";
+const RULE: &str = "fmt: Request::set_timeout(d) for d at 10^k-1, 10^k, 10^k+1 (ns and one unit either side) in every unit, the switch-over points 99999999 x unit, the largest writable duration, beyond it, Duration::MAX, and log-uniform random d; non-trivial = d below 100000000 h. parse: the hook parser on unit (6 valid, 12 invalid) x digit count 0..9 x digit pattern x sign/space prefix x space infix x trailing junk, plus arbitrary legal header bytes incl. obs-text, repeated and absent headers; non-trivial = a non-empty grpc-timeout value. run: unary tonic Channel -> tonic Server over tokio::io::duplex in paused time, (caller timeout | raw header, Endpoint::timeout, Server::timeout, handler latency) on a grid around every boundary incl. sub-millisecond limits. srv_only: raw hyper client (sends grpc-timeout, enforces nothing) -> tonic Server; cli_only: tonic Channel -> stub hyper server that ignores grpc-timeout; full: both real; none: neither; each as unary, *.stream (server stream: head, then n messages gap apart) and *.late_body (unary response whose message follows its head late) on the same grid; the oracle is strict whenever head and deadline fall into different ticks, checks the handler is dropped when the call is cut, and flags calls that outlast their deadline after an in-time head (F-C09b / F-C09c, known findings). Non-trivial = some deadline in force. Distinct = distinct (kind, model expression).";
 
 fn main() {
     let a = args();
@@ -715,8 +1023,12 @@ fn main() {
         case_parse(&mut out, &e, "parse.arbitrary");
     }
 
-    // (c) enforcement in virtual time
+    // (c) enforcement in virtual time: the whole tonic<->tonic path ...
     run_grid(&mut out, &mut r, a.thorough);
+    // ... and the two enforcement points on their own, streams, late bodies
+    let flag = !std::env::args().any(|a| a == "--no-flag-overrun");
+    call_grid(&mut out, &mut r, a.thorough, flag);
 
     out.finish(IMPORTS, RULE, json!({}));
 }
+
